@@ -119,7 +119,7 @@ def scalar_chi2_obligation(cls):
     return lambda pkg: run_obligation(pkg, fn)
 
 
-def graph_sum_obligation(k):
+def graph_sum_obligation(k, directed=False):
     def fn(it):
         edges = []
         for i in range(k):
@@ -134,7 +134,7 @@ def graph_sum_obligation(k):
         if cached is not None and (not isinstance(cached, Poly) or cached != exp):
             raise ObFail("Graph.calc_chi2 stores something else than the returned value in _chi2")
         return dict(edges=k)
-    return lambda pkg: run_obligation(pkg, fn)
+    return lambda pkg: run_obligation(pkg, fn, allow_size_thresholds=directed)
 
 
 def graph_parallel_sum_obligation(k):
@@ -221,4 +221,15 @@ def run(run_, pkg, tier):
         if run_.wants(key):
             tasks.append((key, "C02-graph-chi2-at-own-vertices", graph_own_vertices_obligation(cls), "%s:%d" % (gfn._gs_module, gfn.lineno)))
     run_.floor("error-model obligations", sum(1 for t in tasks if t[1] == "C02-error-model") if run_.only is None else 8, 8)
-    record(run_, tasks, run_tasks(pkg, tasks))
+    results = run_tasks(pkg, tasks)
+    record(run_, tasks, results)
+    # the code tests the number of edges against constants (chunking, thresholds): aim scenarios at exactly those sizes
+    from ..algebra import size_constants
+    consts = size_constants([r for t, r in zip(tasks, results) if t[1] == "C02-graph-sum"])
+    if consts:
+        extra = []
+        for c in consts[:3]:
+            for k in sorted({max(c - 1, 1), c, c + 1, 2 * c}):
+                key = "Graph.calc_chi2/edges=%d (directed at the size constant %d in the code)" % (k, c)
+                extra.append((key, "C02-graph-sum", graph_sum_obligation(k, directed=True), "%s:%d" % (gfn._gs_module, gfn.lineno)))
+        record(run_, extra, run_tasks(pkg, extra))
